@@ -42,16 +42,19 @@ def chain_terms(rng, mids, ordered):
     return terms
 
 
-def gen_case(rng, nthreads=None, ncalls=None, exhaustive=False):
+def gen_case(rng, nthreads=None, ncalls=None, exhaustive=False, with_mid=None):
     ordered = rng.random() < 0.4
-    mids = rng.sample([0, 1, 2, 4], rng.randint(1, 2))
+    # 9: a composite single-use value (two slots, emptied one after the other)
+    mids = rng.sample([0, 1, 2, 4, 9], rng.randint(1, 2))
+    if with_mid is not None and with_mid not in mids:
+        mids[0] = with_mid
     terms = chain_terms(rng, mids, ordered)
     nth = nthreads or rng.randint(2, 4)
     threads = []
     for _ in range(nth):
         n = ncalls or rng.randint(1, 3)
         threads.append([(rng.choice(mids + ([3] if rng.random() < 0.1 else [])), rng.choice([0, 1, 1, 5])) for _ in range(n)])
-    total = sum(4 * len(t) for t in threads)
+    total = sum(5 * len(t) for t in threads)
     sched = [rng.randrange(nth) for _ in range(rng.randint(0, total))]
     return {"partial": rng.random() < 0.2, "terms": terms, "threads": threads, "sched": sched, "shared": rng.random() < 0.35}
 
@@ -69,6 +72,7 @@ def gen_cases(rng, tier, eng):
     # exhaustive part: small programs, every interleaving (operation counts taken from a sequential model run)
     small = [gen_case(rng, nthreads=2, ncalls=1) for _ in range(12 if tier == "quick" else 60)]
     small += [gen_case(rng, nthreads=2, ncalls=2) for _ in range(3 if tier == "quick" else 20)]
+    small += [gen_case(rng, nthreads=2, ncalls=1, with_mid=9) for _ in range(4 if tier == "quick" else 20)]
     if tier == "thorough":
         small += [gen_case(rng, nthreads=3, ncalls=1) for _ in range(20)]
     for c in small:
